@@ -1,8 +1,14 @@
 /-
   C07 — Incremental lexing yields the batch token stream and an exact change window.
-  Property theorems only.
+  Property theorems only (lemmas: Lemmas/Lex, Lemmas/IncLex, Lemmas/LexLocal).
+
+  A change is given as a decomposition of the old text `pre ++ mid ++ post` (the byte range
+  `utf8Len pre .. utf8Len pre + utf8Len mid`, on character boundaries by construction) and the
+  replacement `ins`; the new text is `pre ++ ins ++ post`.  These are exactly the arguments
+  `lexer::update` receives from `AnalyzedSource::update` (C08 proves that the document layer
+  produces ranges on character boundaries).
 -/
-import SplVerif.Lemmas.Lex
+import SplVerif.Lemmas.LexLocal
 
 namespace Spl.C07
 
@@ -11,5 +17,84 @@ namespace Spl.C07
     comments, unknown characters; `|q| - |p|` for a symbol `p` that a longer spelling `q`
     extends — `<`/`<=`, `>`/`>=`, `:`/`:=`, `/`/`//`) and at most 1. -/
 theorem look_ahead_ok : LookAheadOK = true := by decide
+
+/-- **Look-ahead locality** of the one-token lexer, for the regenerated alternative order,
+    spellings and look-ahead table: the token recognised at the start of a text depends only on
+    its own characters and — for kinds with look-ahead 1 — on the next character (or the end of
+    the text).  This is what `is_affected_by` relies on. -/
+theorem lex_local : LexLocal := lexLocal
+
+theorem lex_eq (s : List Char) : lex s = .ok (lexL s 0 ++ [eofToken (utf8Len s)]) := by
+  simp [lex, lexGo_eq_lexL]
+
+/-- **C07, first half — `update` = `lex`.**  For every old text, every change (every byte range
+    on character boundaries, every replacement string — no bound on any length): updating the
+    token sequence of the old text returns precisely the tokens a fresh tokenisation of the new
+    text returns (types with their values, byte ranges, attached lexical errors), and never
+    panics. -/
+theorem update_eq_lex (pre mid ins post : List Char) (old : List Token)
+    (hold : lex (pre ++ mid ++ post) = .ok old) :
+    ∃ new ch,
+      lexUpdate (pre ++ ins ++ post) old (utf8Len pre) (utf8Len pre + utf8Len mid) (utf8Len ins) = .ok (new, ch) ∧
+      lex (pre ++ ins ++ post) = .ok new := by
+  rw [lex_eq] at hold
+  cases hold
+  obtain ⟨ch, h⟩ := lexUpdate_eq_lex lexLocal pre mid ins post
+  exact ⟨_, ch, h, lex_eq _⟩
+
+/-- **C07, second half — the change window is truthful.**  With `(new, ch)` the result of the
+    update: the window is well-formed; the first `ch.delLo` tokens are the old ones untouched;
+    and the old tokens from `ch.delHi` on (including `Eof`), shifted by the length difference of
+    the edit (ranges and attached errors, the shift never underflows), are exactly the new tokens
+    after the `ch.insLen` inserted ones. -/
+theorem window_truthful (pre mid ins post : List Char) (old : List Token)
+    (hold : lex (pre ++ mid ++ post) = .ok old) :
+    ∃ new ch,
+      lexUpdate (pre ++ ins ++ post) old (utf8Len pre) (utf8Len pre + utf8Len mid) (utf8Len ins) = .ok (new, ch) ∧
+      lex (pre ++ ins ++ post) = .ok new ∧
+      ch.delLo ≤ ch.delHi ∧ ch.delHi + 1 ≤ old.length ∧
+      new.take ch.delLo = old.take ch.delLo ∧
+      (old.drop ch.delHi).mapM (fun t => shiftToken? t (editDelta pre mid ins)) =
+        some (new.drop (ch.delLo + ch.insLen)) := by
+  rw [lex_eq] at hold
+  cases hold
+  obtain ⟨ch, h, h1, h2, h3, h4⟩ := lexUpdate_window lexLocal pre mid ins post
+  refine ⟨_, ch, h, lex_eq _, h1, ?_, h3, h4⟩
+  simp only [List.length_append, List.length_cons, List.length_nil]
+  omega
+
+/-- Edit histories: token sequences reached from a fresh tokenisation by any number of updates. -/
+inductive Reaches : List Char → List Token → Prop
+  | init (t : List Char) (toks : List Token) : lex t = .ok toks → Reaches t toks
+  | step (pre mid ins post : List Char) (old new : List Token) (ch : TokenChange) :
+      Reaches (pre ++ mid ++ post) old →
+      lexUpdate (pre ++ ins ++ post) old (utf8Len pre) (utf8Len pre + utf8Len mid) (utf8Len ins) = .ok (new, ch) →
+      Reaches (pre ++ ins ++ post) new
+
+/-- **C07 over histories**: after any sequence of changes the maintained token sequence is the
+    fresh tokenisation of the current text. -/
+theorem history_eq_lex {t : List Char} {toks : List Token} (h : Reaches t toks) : lex t = .ok toks := by
+  induction h with
+  | init t toks h => exact h
+  | step pre mid ins post old new ch _ hu ih =>
+    obtain ⟨new', ch', h1, h2⟩ := update_eq_lex pre mid ins post old ih
+    rw [hu] at h1
+    cases h1
+    exact h2
+
+/-- … and no update along a history panics. -/
+theorem history_no_panic {pre mid post : List Char} {old : List Token} (h : Reaches (pre ++ mid ++ post) old)
+    (ins : List Char) :
+    ∃ new ch, lexUpdate (pre ++ ins ++ post) old (utf8Len pre) (utf8Len pre + utf8Len mid) (utf8Len ins) = .ok (new, ch) := by
+  obtain ⟨new, ch, h1, _⟩ := update_eq_lex pre mid ins post old (history_eq_lex h)
+  exact ⟨new, ch, h1⟩
+
+/-! Non-vacuity: the hypothesis `lex … = .ok old` holds for every text (`C06.lex_total`); one
+    concrete instance of the adjacency the look-ahead table is about — a lone tick at the end of
+    the text, then a character typed after it — evaluated by the kernel. -/
+example : ∃ old, lex ("x := '".toList ++ [] ++ []) = .ok old := ⟨_, lex_eq _⟩
+
+example : (lexUpdate "x := 'a".toList ((lexL "x := '".toList 0) ++ [eofToken 6]) 6 6 1).toOption.map (·.1) =
+    (lex "x := 'a".toList).toOption := by decide +kernel
 
 end Spl.C07
